@@ -155,6 +155,10 @@ class Gen:
         a = r.choice(alts)
         if a == "none":
           return r.choice([f"{n} is None", f"{n} is not None"])
+        others = [b for b in alts if b != a and b != "none"]
+        if others and len(alts) >= 3 and r.random() < 0.5:
+          b = r.choice(others)
+          return f"isinstance({n}, ({self.runtime_class(a)}, {self.runtime_class(b)}))"
         return f"isinstance({n}, {self.runtime_class(a)})"
     if x < 0.7:
       return r.choice(["True", "False", "1", "0", "''", "'x'"])
@@ -329,7 +333,15 @@ class Gen:
     """An expression whose type is deliberately a union or only loosely known."""
     r = self.r
     t1, t2 = self.pick_type(1), self.pick_type(1)
-    c = r.randrange(9)
+    c = r.randrange(11)
+    if c >= 9:
+      t3 = self.pick_type(1)
+      if c == 9:
+        return (f"({self.expr(t1, env, 2)} if {self.cond(env)} else ({self.expr(t2, env, 2)} if {self.cond(env)} "
+                f"else {self.expr(t3, env, 2)}))", ("union", tuple(dict.fromkeys((t1, t2, t3)))))
+      return (f"({self.expr(t1, env, 2)} if _flag({r.randint(0, 5)}) else None) or ({self.expr(t2, env, 2)} if "
+              f"_flag({r.randint(0, 5)}) else {self.expr(t3, env, 2)})",
+              ("union", tuple(dict.fromkeys((t1, t2, t3, "none")))))
     if c == 0:
       return (f"({self.expr(t1, env, 2)} if {self.cond(env)} else {self.expr(t2, env, 2)})",
               ("union", (t1, t2)))
@@ -372,7 +384,29 @@ class Gen:
       in_func.append(t)
       self.emit(f"return {self.expr(t, env, 1)}", ind)
       return "returned"
-    if x < 0.30:
+    unions = [n for n, t in env.items() if tname(t) in ("union", "opt") and not n.startswith("_")]
+    if unions and x < 0.12:
+      n = r.choice(unions)
+      t = env[n]
+      v = self.fresh()
+      form = r.randrange(6)
+      if form == 0:
+        self.emit(f"{v} = {n}", ind); env[v] = t
+      elif form == 1:
+        self.emit(f"{v} = [{n}]", ind); env[v] = "any"
+      elif form == 2:
+        self.emit(f"{v} = ({n}, {self.literal(self.pick_type(1))})", ind); env[v] = "any"
+      elif form == 3:
+        self.emit(f"{v} = {{'k': {n}}}", ind); env[v] = "any"
+      elif form == 4:
+        self.emit(f"{v} = str({n})", ind); env[v] = "str"
+      else:
+        ident = [f for f in self.funcs.values() if len(f.params) == 1 and f.params[0][2] is None]
+        if ident:
+          self.emit(f"{v} = {ident[0].name}({n})", ind); env[v] = "any"
+        else:
+          self.emit(f"{v} = (lambda _z: _z)({n})", ind); env[v] = t
+    elif x < 0.30:
       t = self.pick_type()
       n = self.target(env, t)
       self.emit(f"{n} = {self.expr(t, env)}", ind)
@@ -524,6 +558,16 @@ class Gen:
         keep = [a for a in alts if (a == "none") == truth]
       elif c == f"{n} is not None":
         keep = [a for a in alts if (a != "none") == truth]
+      elif c.startswith(f"isinstance({n}, ("):
+        clss = [x.strip() for x in c[len(f"isinstance({n}, ("):-2].split(",")]
+        def m(a, clss=clss):
+          rc = self.runtime_class(a)
+          if rc in clss or (a == "bool" and "int" in clss):
+            return True
+          if tname(a) == "inst":
+            return any(k in self.mro_names(a[1]) for k in clss if k in self.classes)
+          return False
+        keep = [a for a in alts if m(a) == truth]
       elif c.startswith(f"isinstance({n}, "):
         cls = c[len(f"isinstance({n}, "):-1]
         def m(a):
